@@ -27,10 +27,12 @@ class NodeParser(PushParser):
 
     Attributes:
         ns_map: The parsed namespace prefix-URI map
+        parent_ns: The namespace the root class inherits, if it has none of its own
     """
 
     context: XmlContext = field(default_factory=XmlContext)
     handler: type[XmlHandler] = field(default=EventsHandler)
+    parent_ns: str | None = field(init=False, default=None)
 
     def parse(
         self,
@@ -109,7 +111,7 @@ class NodeParser(PushParser):
             if clazz is None:
                 raise ParserError(f"No class found matching root: {qname}")
 
-            meta = self.context.fetch(clazz, xsi_type=xsi_type)
+            meta = self.context.fetch(clazz, self.parent_ns, xsi_type)
             if xsi_type is None or meta.qname == qname:
                 derived_factory = None
             else:
